@@ -856,7 +856,7 @@ Qed.
 Lemma true_prefix cs ci c k : nth_error cs ci = Some c -> (k <= length (c_src c))%nat ->
   firstn (chunk_offset cs ci + k) (input_of cs) = input_of (firstn ci cs) ++ firstn k (c_src c).
 Proof.
-  intros E Hk. unfold chunk_offset. rewrite (input_split cs ci c E) at 2.
+  intros E Hk. unfold chunk_offset. rewrite (input_split cs ci c E) at 1.
   rewrite firstn_ge_app by lia. f_equal. replace (length (input_of (firstn ci cs)) + k - length (input_of (firstn ci cs)))%nat with k by lia.
   rewrite firstn_app. replace (k - length (c_src c))%nat with 0%nat by lia. simpl. apply app_nil_r.
 Qed.
@@ -886,7 +886,9 @@ Proof.
   rewrite E3 in Hr. destruct (H k Hk1 Hk2) as (A1 & A2 & A3 & A4).
   destruct (Nat.ltb_spec k (e_delta r)); [lia|].
   destruct (parsed_position _ _ _ _ _ _ (k - e_delta r) I' E3 E4 A2) as (s' & Ep). rewrite Ep in Hr.
-  inversion Hr; subst pos; clear Hr. cbn [p_name p_line p_col].
+  assert (Epos : pos = mkPos name (Z.of_nat (k - e_delta r)) (1 + count_nl (firstn (k - e_delta r) str) + lf)
+                             (1 + col_scan (firstn (k - e_delta r) str) 0)) by congruence.
+  clear Hr Ep. rewrite Epos. cbv [p_name p_line p_col].
   unfold true_line, true_col. rewrite (true_prefix cs ci c k Ec) by lia.
   split; [reflexivity|]. split.
   - rewrite A3, count_nl_app. lia.
@@ -906,7 +908,8 @@ Lemma chunk_offset_step : forall cs ci c, nth_error cs ci = Some c ->
   chunk_offset cs (S ci) = (chunk_offset cs ci + length (c_src c))%nat.
 Proof.
   unfold chunk_offset. induction cs as [|d cs IH]; intros ci c E; destruct ci; simpl in E; try discriminate.
-  - inversion E; subst. simpl. rewrite app_nil_r. reflexivity.
+  - inversion E; subst. change (firstn 1 (c :: cs)) with [c]. change (firstn 0 (c :: cs)) with (@nil chunk).
+    rewrite input_of_cons. unfold input_of at 1 2. simpl. rewrite app_nil_r. reflexivity.
   - change (firstn (S (S ci)) (d :: cs)) with (d :: firstn (S ci) cs).
     change (firstn (S ci) (d :: cs)) with (d :: firstn ci cs).
     rewrite !input_of_cons, !app_length, (IH ci c E). lia.
